@@ -145,9 +145,24 @@ def make_param(eng, st, name, ann, override=None):
             return z3.Real(name)
         if kind == 'bool':
             return z3.Bool(name)
+        if kind.startswith('tuple') and kind.endswith('int'):
+            n = int(kind[5:-3])
+            return tuple(z3.Int('%s_%d' % (name.replace('.', '_'), k)) for k in range(n))
         if kind.startswith('list') and kind.endswith('int'):
             n = int(kind[4:-3])
             return [z3.Int('%s_%d' % (name, k)) for k in range(n)]
+        if (kind.startswith('arr') or kind.startswith('iarr')) and ':' in kind:
+            # 'arr1:7' / 'iarr1:n0,n1' concrete extents
+            kd, ext = kind.split(':')
+            shape = []
+            for k, x in enumerate(ext.split(',')):
+                if x == '?':
+                    sv = z3.Int('%s_n%d' % (name.replace('.', '_'), k))
+                    st.pc.append(sv >= 0)
+                    shape.append(sv)
+                else:
+                    shape.append(int(x))
+            return eng.new_arr(st, len(shape), shape, INT if kd.startswith('i') else REAL, name.replace('.', '_'))
         if kind.startswith('arr') or kind.startswith('iarr'):
             rank = int(kind[-1])
             shape = [z3.Int('%s_n%d' % (name, k)) for k in range(rank)]
@@ -355,14 +370,25 @@ def prepare(ctx, ob, rounds=2, nosum=False):
 def split_cases(ctx, ob, rounds, nosum=False):
     """Proof by cases on the last index of each bounded skolem: sk < hi-1 | sk := hi-1 (substituted).
     Returns list of assertion lists; the obligation holds iff every case is unsat."""
+    hinted = getattr(ob, 'split_terms', None)
     sks = [smt.SK_BOUNDS[k.get_id()] for k in ob.skolems if k.get_id() in smt.SK_BOUNDS][:3]
-    if not sks:
+    if not sks and not hinted:
         return None
     hyps = list(ob.hyps)
     if nosum:
         hyps = [h for h in hyps if not smt.has_sum(h, ctx.registry)]
     base = list(ctx.axioms) + hyps + [z3.Not(ob.goal)]
     cases = [([], [])]
+    if hinted:
+        # cases given by the contract: variable equal to one of the terms (substituted), or different from all of them
+        for (c, terms) in hinted.values():
+            nxt = []
+            for (subs, extra) in cases:
+                for t in terms:
+                    nxt.append((subs + [(c, t)], extra))
+                nxt.append((subs, extra + [c != t for t in terms]))
+            cases = nxt
+        sks = []
     for (c, lo, hi) in sks:
         last = ZI(V.binop('Sub', hi, 1))
         nxt = []
@@ -476,7 +502,7 @@ def portfolio(ctx, ob, rounds, backends):
     plan.append(('full%d/nra' % deep_r, 'full', deep_r, False, 'z3py-nra', False))
     if nosum_ok:
         plan.append(('full1/nosum', 'full', 1, True, backends[0], False))
-    if any(k.get_id() in smt.SK_BOUNDS for k in ob.skolems):
+    if any(k.get_id() in smt.SK_BOUNDS for k in ob.skolems) or getattr(ob, 'split_terms', None):
         for cr in range(1, rounds + 2):
             plan.append(('cases/inst%d' % cr, 'cases', cr, False, backends[0], False))
         plan.append(('cases/inst%d/nra' % (rounds + 1), 'cases', rounds + 1, False, 'z3py-nra', False))
@@ -597,4 +623,5 @@ def discharge(ctx, obligations=None, timeout=20, procs=None, backends=('z3py', '
 def new_ctx(repo=None):
     ctx = VCtx(repo)
     ctx.engine = Engine(ctx)
+    ctx.global_qfacts.append(smt.QFact(2, lambda x, y: V.imod_facts(x, y), 'integer modulo with symbolic divisor', trigger='imod'))
     return ctx
